@@ -41,7 +41,7 @@ def analyse(lang, outdir, pr):
             found.setdefault(m.group(2), {})[m.group(1)] = m.group(0).rstrip("\n")
         for cname, parts in found.items():
             if "Encode" in parts and "Decode" in parts and cname in flat:
-                funcs[flat[cname]] = hashlib.sha256((parts["Encode"] + parts["Decode"]).encode()).hexdigest()
+                funcs[cname] = hashlib.sha256((parts["Encode"] + parts["Decode"]).encode()).hexdigest()
         decls = [l for l in h.splitlines() if re.match(r"^(#define \w+ |struct \w+ \{|typedef )", l)]
     elif lang == "go":
         g = open(os.path.join(outdir, base + ".go")).read()
@@ -50,14 +50,14 @@ def analyse(lang, outdir, pr):
             found.setdefault(m.group(1), {})[m.group(2)] = m.group(0).rstrip("\n")
         for gname, parts in found.items():
             if "Encode" in parts and "Decode" in parts and gname in flat:
-                funcs[flat[gname]] = hashlib.sha256((parts["Encode"] + parts["Decode"]).encode()).hexdigest()
+                funcs[gname] = hashlib.sha256((parts["Encode"] + parts["Decode"]).encode()).hexdigest()
         decls = [l for l in g.splitlines() if re.match(r"^(type |const )", l)]
     else:
         y = open(os.path.join(outdir, base + ".py")).read()
         pyflat = {"_".join(p): p[-1] for p in message_paths(pr)}
         for m in PY_CLASS.finditer(y):
             if m.group(1) in pyflat:
-                funcs[pyflat[m.group(1)]] = "py"
+                funcs[m.group(1)] = "py"
         decls = [l for l in y.splitlines() if re.match(r"^(class |\w+: |\w+ = )", l)]
     return funcs, decls
 
@@ -187,7 +187,12 @@ def main(tier, replay=None):
             e = {"ev": "CliRun", "cfg": cfg, "exit": m["rc"], "nfiles": len(os.listdir(m["out"])),
                  "traceback": "Traceback (most recent call last)" in m["stderr"],
                  "ndiag": m["stderr"].count("error:") + (1 if m["stderr"].strip() else 0),
-                 "nwarn": 0, "funcs": sorted(m.get("funcs", {})), "funcs_same_text": True, "decls_same": True}
+                 "nwarn": 0, "funcs_same_text": True, "decls_same": True}
+            # own names of the messages that got functions, one entry per MESSAGE (same-named messages of different
+            # scopes count separately)
+            sep = "_" if m["lang"] == "py" else ""
+            simple = {sep.join(p_): p_[-1] for p_ in message_paths(pr)}
+            e["funcs"] = sorted(simple.get(k_, k_) for k_ in m.get("funcs", {}))
             rf = ref.get((m["si"], m["lang"], m["O"], m["endian"]))
             if "funcs" in m and rf is not None:
                 e["funcs_same_text"] = all(rf["funcs"].get(n) == dg for n, dg in m["funcs"].items())
